@@ -71,6 +71,19 @@ def run(tier, seed):
     rr = vlib.run_harness(ck.binary, PROP, vec, seed=seed, tier=tier, shards=2)
     ck.absorb(rr)
     ck.triage(rr.divs)
+    # string tokens in depth: the literal units of spec/JsonString.tla with the meaning the definition gives
+    lit = vlib.vecpath(PROP, "literals")
+    with open(lit, "w") as sink:
+        g2 = vlib.must_hold(vlib.tlc("JsonString", "Gen_JsonStringUnesc.cfg", workers=8, sink=sink, tag="JsonString-c17-2"), "literal units (2)")
+        sub = '{"a","r3","x","tr","e_c","e_bs","u_asc","u_hi","u_lo","u_r3","u_sc"}' if not thorough else "{}"
+        g3 = vlib.must_hold(vlib.tlc("JsonString", "Gen_JsonStringUnesc.cfg", workers=8, sink=sink, tag="JsonString-c17-3",
+                                     defines={"MaxUnits": 3, "UnescUnits": sub}, timeout=3000), "literal units (3)")
+    ck.add_mc(g2, "Gen_JsonStringUnesc(2 units)")
+    ck.add_mc(g3, "Gen_JsonStringUnesc(3 units)")
+    rr2 = vlib.run_harness(ck.binary, PROP, lit, seed=seed, tier=tier, shards=2, extra_args=["-noextra"])
+    os.unlink(lit)
+    ck.absorb(rr2)
+    ck.triage(rr2.divs)
     # code -> spec: recorded traces of the real Tokenizer validated by TLC
     for k in range(4 if thorough else 1):
         check_trace(ck, ck.binary, seed * 1000 + k, 3000 if thorough else 1500, vec)
@@ -79,7 +92,8 @@ def run(tier, seed):
     ck.rule = ("TLC enumerates every complete token-level JSON document up to MaxTok tokens with the definition's "
                "Depth/Index/IsKey; each is lifted to bytes 4-8 ways (scalar variants, whitespace) and the real Tokenizer "
                "is stepped through it; plus TLC trace validation of recorded executions over arbitrary byte strings and "
-               "Reset histories. distinct_nontrivial = distinct token documents replayed")
+               "Reset histories; plus the literal-unit sequences of spec/JsonString.tla as string tokens (alone, element, member name and value): "
+               "String / RawValue.Unquote give the meaning the definition gives. distinct_nontrivial = distinct token documents replayed")
     ck.assumptions = ["encoding/json's Decoder.Token stream cross-checks the definition on every document (disagreement = exit 2)"]
     return ck.finish()
 
